@@ -11,5 +11,6 @@ print('|---------------|----------|------------------------------|')
 for p, n, r in sorted(rows):
     print('| %s | %s | %s |' % (n, p, r.replace('|', '/')))
 print()
-missed = [r for r in rows if 'missed' in r[2].lower() or 'HARNESS' in r[2]]
-print('%d seeded changes kept; %d caught on the first run; %d first missed (or not decided) and caught after strengthening.' % (len(rows), len(rows) - len(missed), len(missed)))
+open_ = [r for r in rows if 'open lead' in r[2]]
+missed = [r for r in rows if ('missed' in r[2].lower() or 'HARNESS' in r[2]) and r not in open_]
+print('%d seeded changes kept; %d caught on the first run; %d first missed (or not decided) and caught after strengthening; %d not caught yet (open leads).' % (len(rows), len(rows) - len(missed) - len(open_), len(missed), len(open_)))
